@@ -8,7 +8,7 @@ Supported: WITH [RECURSIVE] cte(cols) AS (VALUES..|SELECT..[UNION SELECT..]), SE
 [DISTINCT], FROM t [AS a] {JOIN t|(SELECT..) AS a ON e}, WHERE, ORDER BY, LIMIT, expressions
 (= <> != < <= > >= || + - AND OR NOT ISNULL NOTNULL IS [NOT] NULL IN (list|select|cte) GLOB,
 scalar sub-selects, ?, :name, literals), INSERT [OR IGNORE] INTO t VALUES (..) [ON
-CONFLICT(col) DO UPDATE SET ..], UPDATE, DELETE, PRAGMA (ignored).  Anything else raises
+CONFLICT(col) DO UPDATE SET .. [WHERE ..]], UPDATE, DELETE, CASE, PRAGMA foreign_keys.  Anything else raises
 ``ModelError`` (a harness error: "encoding out of date"), never a silent pass.
 
 Schema (columns, NOT NULL, PRIMARY KEY, UNIQUE, foreign keys with ON DELETE action) is read
@@ -173,7 +173,12 @@ class _P:
             self.eat('kw', 'DO')
             self.eat('kw', 'UPDATE')
             self.eat('kw', 'SET')
-            upd = (ccol, self.setlist())
+            sets = self.setlist()
+            uw = None
+            if self.at('kw', 'WHERE'):
+                self.eat()
+                uw = self.expr()
+            upd = (ccol, sets, uw)
         return ('insert', t, vals, ignore, upd)
 
     def setlist(self):
@@ -1069,6 +1074,8 @@ class MCur:
                 return
             if upd and [upd[0]] == u:
                 env = [('excluded', cols, row), (t, cols, r)]
+                if upd[2] is not None and not _truth(ev(upd[2], env, cx)):
+                    return          # DO UPDATE ... WHERE false: the existing row is kept
                 newvals = [(c, ev(e, env, cx)) for c, e in upd[1]]
                 new = list(r)
                 for c, v in newvals:
